@@ -231,6 +231,10 @@ def r15_2(cx):
             e = fn.switch_expr(b)
             if not any(m.is_counter(x) for x in e.walk()):
                 continue
+            # an assertion (one side never returns) decides nothing on the paths that do return
+            ss = fn.succs()[b]
+            if len(ss) == 2 and any(fn.path(s_, fn.returns()) is None for s_ in ss) and not any((b, s_) in m.restore_edges(fn) for s_ in ss):
+                continue
             n += 1
             cx.count_sites()
             edges = [k for k in m.restore_edges(fn) if k[0] == b]
